@@ -310,15 +310,17 @@ func newWorldOn(gs *gatedStorage, node string, withRouting, realPeer bool) *worl
 	return w
 }
 
-// newCluster: two real nodes A and B over ONE storage; the four clients are registered once (through node A) and can
+// newCluster: three real nodes A, B and C over ONE storage; the four clients are registered once (through node A) and can
 // authenticate on either node.
-func newCluster() (*world, *world) {
+func newCluster() (*world, *world, *world) {
 	gs := &gatedStorage{FullStorage: memory.New(context.Background())}
 	a := newWorldOn(gs, "node-A", true, true)
 	b := newWorldOn(gs, "node-B", true, true)
+	c := newWorldOn(gs, "node-C", true, true)
 	a.L, a.T, a.S, a.X = a.newClient(), a.newClient(), a.newClient(), a.newClient()
 	b.L, b.T, b.S, b.X = a.L, a.T, a.S, a.X
-	return a, b
+	c.L, c.T, c.S, c.X = a.L, a.T, a.S, a.X
+	return a, b, c
 }
 
 // ---------------------------------------------------------------------------------------------
